@@ -22,7 +22,8 @@ def run(chk):
         "followed on every path by the split) and +u*dt/2 for backward steps; per `order` branch the sub-step lengths sum to ds "
         "and every sampling time equals start + elapsed + length/2 as rational functions of ds and the composition constant; "
         "ds=(t1-t0)/steps with exactly `steps` iterations and one t+=ds each; the reported time is the loop-carried one. Sweep "
-        "bodies are checked on a CFG as for DMRG (refresh after/at the new isometry, invalidation covering written sites).")
+        "bodies are checked on a CFG as for DMRG (refresh after/at the new isometry, invalidation covering written sites)."
+        " expmv combines its orthonormal Krylov basis started from v/|v|, every Heff is linear in its input, and all Heff0/1/2 siblings carry the operator's norm factor (forward and backward steps use one generator).")
     chk.trusted_base = ["python ast parser", "exact rational arithmetic sa/core/poly.py (float literals taken exactly)"]
     chk.rule("T1", "forward steps evolve by -u*dt/2, backward steps by +u*dt/2", floor=9)
     chk.rule("T2", "sub-steps of each order sum to ds and sample H at their mid-points; 4th-order constant exact", floor=9)
